@@ -821,7 +821,10 @@ func verifTokensOf(q string) []Token {
 func verifH_C10_text() {
 	tmpl := verifTextTemplates[verifParam("template", 0)]
 	double := verifParam("double", 0) == 1
-	newline := verifParam("newline", 0) == 1
+	// newline: 1 = every separator is a line feed, 2 = CR LF line ends, 3 = a
+	// symbolic choice of line feed or bare carriage return per separator
+	nlMode := verifParam("newline", 0)
+	newline := nlMode >= 1
 	canon := verifTokensOf(tmpl)
 	var b []byte
 	inQuote := false
@@ -840,7 +843,14 @@ func verifH_C10_text() {
 			}
 			for k := 0; k < n; k++ {
 				if newline {
-					b = append(b, '\n')
+					switch nlMode {
+					case 2:
+						b = append(b, '\r', '\n')
+					case 3:
+						b = append(b, verifSelU8(verifBool("cr"), '\r', '\n'))
+					default:
+						b = append(b, '\n')
+					}
 					continue
 				}
 				b = append(b, verifSelU8(verifBool("tab"), '\t', ' '))
